@@ -617,7 +617,17 @@ func (f *Frame) appendOp(args []Val, c *ssa.CallCommon, instr ssa.Value, st *Sta
 func (f *Frame) applyContract(ct *Contract, key string, names []string, sig *types.Signature, args []Val, st *State, reach string, pos token.Pos, rname string) Val {
 	g := f.g
 	ct.used = true
-	if ct.Trusted {
+	if ct.Trusted && ct.Refined != "" {
+		// the table-level contract is what the verified store-level contract of the same function says when the table is
+		// read through the store (lemma ct.Refined, discharged as its own obligations)
+		if lem := g.w.contracts[ct.PkgPath+"::"+ct.Refined]; lem == nil || !lem.IsLemma {
+			g.fail("%s: refined by %q, but there is no such lemma in the package", key, ct.Refined)
+		}
+		if g.w.contracts[ct.PkgPath+"::"+ct.Key+"@store"] == nil {
+			g.fail("%s: refined, but the function has no @store contract", key)
+		}
+		g.trusted["derived|"+key+" (table-level contract = the verified @store contract read through the table view; lemma "+ct.Refined+")"] = true
+	} else if ct.Trusted {
 		g.trusted[key] = true
 	}
 	for _, a := range ct.Assumes {
